@@ -6,6 +6,7 @@ import (
 	"regexp"
 	"strings"
 
+	"github.com/sdcio/yang-parser/xpath"
 	"github.com/sdcio/yang-parser/xpath/grammars/expr"
 	"github.com/sdcio/yang-parser/xpath/grammars/leafref"
 
@@ -142,7 +143,59 @@ func c04GetLayout(tier string) c04Layout {
 
 func (p *c04) NumCases(tier string, seed int64) int {
 	l := c04GetLayout(tier)
-	return 1 + l.nExprTuple + l.nLrTuple + l.nSampled + l.nSentences + l.nBytes
+	return 1 + l.nExprTuple + l.nLrTuple + l.nSampled + l.nSentences + l.nBytes + 1
+}
+
+// c04Collision is the last case of a run, and so the last thing its worker process does: a plugin registers a
+// function under the name of a core function, with another number of arguments.  From then on that name is the
+// plugin's function: not available to the plain compiler, and taking the declared number of arguments where
+// custom functions are allowed.  Other names are what they were.
+func c04Collision(res *core.CaseResult) {
+	try := func(s string, custom bool) bool {
+		var err error
+		pan, msg, _ := core.Guard(func() {
+			if custom {
+				_, err = expr.NewExprMachineWithCustomFunctions(s, c04Pfx)
+			} else {
+				_, err = expr.NewExprMachine(s, c04Pfx)
+			}
+		})
+		if pan {
+			res.Fail("C04/panic", s, msg)
+			return false
+		}
+		return err == nil
+	}
+	check := func(when, s string, custom, want bool) {
+		res.Ev("expressions_around_a_function_name_collision", 1)
+		if got := try(s, custom); got != want {
+			cls := "accepted-but-not-in-supported-subset"
+			if want {
+				cls = "rejected-but-in-supported-subset"
+			}
+			res.Fail("C04/expr/"+cls+"/function-name-collision", s, fmt.Sprintf("%s, custom functions allowed=%v: accepted=%v, the declared functions say %v", when, custom, got, want))
+		}
+	}
+	for _, c := range []bool{false, true} {
+		check("before the registration", "re-match(../a, 'x')", c, true)
+		check("before the registration", "re-match(../a, 'x', 'i')", c, false)
+	}
+	xpath.RegisterCustomFunctions([]xpath.CustomFunctionInfo{{Name: "re-match",
+		FnPtr:   func(args []xpath.Datum) xpath.Datum { return xpath.NewBoolDatum(true) },
+		Args:    []xpath.DatumTypeChecker{xpath.TypeIsLiteral, xpath.TypeIsLiteral, xpath.TypeIsLiteral},
+		RetType: xpath.TypeIsBool, DefaultRetVal: xpath.NewBoolDatum(false)}})
+	const after = "after a plugin registered re-match with three arguments"
+	check(after, "re-match(../a, 'x')", false, false)
+	check(after, "re-match(../a, 'x', 'i')", false, false)
+	check(after, "re-match(../a, 'x')", true, false)
+	check(after, "re-match(../a, 'x', 'i')", true, true)
+	check(after, "count(../a[re-match(., 'x', 'i')]) > 0", true, true)
+	check(after, "count(../a[re-match(., 'x')]) > 0", true, false)
+	for _, c := range []bool{false, true} {
+		check(after, "contains(../a, 'x')", c, true)
+		check(after, "contains(../a, 'x', 'i')", c, false)
+		check(after, "substring(../a, 1, 2) = 'x'", c, true)
+	}
 }
 
 // decodeTupleBatch: batch index -> fixed prefix (indices)
@@ -546,6 +599,9 @@ func (p *c04) Run(tier string, seed int64, idx int) core.CaseResult {
 	l := c04GetLayout(tier)
 	r := core.CaseRng(seed, "C04", idx)
 	switch {
+	case idx == p.NumCases(tier, seed)-1:
+		c04Collision(&res)
+		return res
 	case idx == 0:
 		for _, s := range c04Hostile {
 			c04CheckExpr(s, &res)
